@@ -39,7 +39,18 @@ type bwsRoles struct {
 	mu, writer, ticker, stop, done, initialized, stopped string
 	initFn, loop                                         *ssa.Function
 	loopGo                                               *ssa.Go
+	// doneWG: the flush loop's end is signalled through a sync.WaitGroup (Add before the go statement, Done on the way
+	// out, Wait in Stop) instead of a channel that the loop closes.
+	doneWG bool
+	// chanLatched: "stopped" is not recorded in a field of its own: it is the stop channel being closed, tested with a
+	// non-blocking receive. The life-cycle states then carry the pseudo field closedKey.
+	chanLatched bool
+	// testChan: the channel that test receives from (the stop channel, if the code is right)
+	testChan string
 }
+
+// closedKey: pseudo field of a life-cycle state: whether the stop channel has been closed.
+const closedKey = "#stop-closed"
 
 var bwsR bwsRoles
 
@@ -58,7 +69,9 @@ func (s bwsState) initFields(recv ssa.Value) []FieldVal {
 	var out []FieldVal
 	var ks []string
 	for f := range s.fields {
-		ks = append(ks, f)
+		if !strings.HasPrefix(f, "#") {
+			ks = append(ks, f)
+		}
 	}
 	sort.Strings(ks)
 	for _, f := range ks {
@@ -76,6 +89,44 @@ func (s bwsState) conc(recvName string) func(string) (int64, bool) {
 			}
 		}
 		return 0, false
+	}
+}
+
+// stopTest: in is the index a non-blocking select over a receive from the syncer's stop channel yields (the "has Stop
+// run already?" test of a syncer that records it by closing that channel).
+func (r bwsRoles) stopTest(in ssa.Instruction, st *ConcState) bool {
+	ex, ok := in.(*ssa.Extract)
+	if !ok || ex.Index != 0 {
+		return false
+	}
+	sel, ok := ex.Tuple.(*ssa.Select)
+	if !ok || sel.Blocking || len(sel.States) != 1 || sel.States[0].Dir != types.RecvOnly {
+		return false
+	}
+	return strings.HasSuffix(st.Desc(sel.States[0].Chan), "."+r.testChan)
+}
+
+// fork: what the state says about the outcome of instructions the explorer cannot evaluate itself - the non-blocking
+// receive from the stop channel of a channel-latched syncer: taken exactly when the channel was closed (a nil or open
+// channel falls through to default).
+func (s bwsState) fork(r bwsRoles) func(in ssa.Instruction, st *ConcState) []ConcAlt {
+	closed, has := s.fields[closedKey]
+	if !has {
+		return nil
+	}
+	return func(in ssa.Instruction, st *ConcState) []ConcAlt {
+		if !r.stopTest(in, st) {
+			return nil
+		}
+		ex := in.(*ssa.Extract)
+		if closed == 0 {
+			return []ConcAlt{{Ints: map[ssa.Value]int64{ex: -1}}} // neither channel is closed before Stop has run
+		}
+		if r.testChan == r.stop {
+			return []ConcAlt{{Ints: map[ssa.Value]int64{ex: 0}}}
+		}
+		// the other channel: closed by the flush loop some time after Stop asked it to leave - or not yet
+		return []ConcAlt{{Ints: map[ssa.Value]int64{ex: 0}}, {Ints: map[ssa.Value]int64{ex: -1}}}
 	}
 }
 
@@ -137,7 +188,7 @@ func discoverBWS(c *Ctx, bws *types.Named) (r bwsRoles, ok bool) {
 			}
 		}
 	}
-	var chans, bools, enums []cand
+	var chans, bools, enums, wgs []cand
 	var writer cand
 	for _, cd := range cands {
 		switch TypeName(cd.typ) {
@@ -147,6 +198,8 @@ func discoverBWS(c *Ctx, bws *types.Named) (r bwsRoles, ok bool) {
 			r.writer, writer = cd.path, cd
 		case "*time.Ticker":
 			r.ticker = cd.path
+		case "sync.WaitGroup":
+			wgs = append(wgs, cd)
 		default:
 			switch t := types.Unalias(cd.typ).Underlying().(type) {
 			case *types.Chan:
@@ -228,6 +281,16 @@ func discoverBWS(c *Ctx, bws *types.Named) (r bwsRoles, ok bool) {
 			}
 		}
 	}
+	if r.done == "" && len(chans) == 1 && len(wgs) == 1 && r.loop != nil {
+		// no channel is closed by the loop: a WaitGroup the loop marks Done on its way out
+		for _, g := range WithClosures(r.loop) {
+			for _, cl := range Calls(g) {
+				if IsCallTo(cl, "(*sync.WaitGroup).Done") && strings.HasSuffix(strings.TrimPrefix(Desc(Args(cl)[0]), "&"), "."+wgs[0].path) {
+					r.done, r.doneWG = wgs[0].path, true
+				}
+			}
+		}
+	}
 	for _, cd := range chans {
 		if cd.path != r.done {
 			r.stop = cd.path
@@ -257,6 +320,35 @@ func discoverBWS(c *Ctx, bws *types.Named) (r bwsRoles, ok bool) {
 		r.lifeFields = []string{r.initialized, r.stopped}
 		r.latchField, r.latchVal = r.stopped, 1
 		lifeOK = true
+	case len(bools) == 1 && len(enums) == 0 && r.initialized != "" && r.stop != "":
+		// one flag only: "stopped" is the stop channel being closed, found out by a non-blocking receive
+		r.stopped = ""
+		tested := false
+		c.EachRootFunc(func(fn *ssa.Function) {
+			if rn := RecvNamed(fn); rn == nil || rn.Obj() != bws.Obj() || fn == r.loop {
+				return
+			}
+			AllInstrs(fn, func(i ssa.Instruction) {
+				if sel, isSel := i.(*ssa.Select); isSel && !sel.Blocking && len(sel.States) == 1 && sel.States[0].Dir == types.RecvOnly {
+					for _, cd := range chans {
+						if strings.HasSuffix(Desc(sel.States[0].Chan), "."+cd.path) {
+							tested = true
+							r.testChan = cd.path
+						}
+					}
+				}
+			})
+		})
+		if tested {
+			r.life = []bwsState{
+				{"unstarted", map[string]int64{r.initialized: 0, closedKey: 0}},
+				{"running", map[string]int64{r.initialized: 1, closedKey: 0}},
+				{"stopped", map[string]int64{r.initialized: 1, closedKey: 1}},
+			}
+			r.lifeFields = []string{r.initialized}
+			r.chanLatched = true
+			lifeOK = true
+		}
 	case len(bools) == 0 && len(enums) == 1 && r.initFn != nil:
 		// unstarted: the zero value; running: the constant the initialiser stores; stopped: the other constant stored
 		cd := enums[0]
@@ -288,7 +380,7 @@ func discoverBWS(c *Ctx, bws *types.Named) (r bwsRoles, ok bool) {
 			lifeOK = true
 		}
 	}
-	ok = r.mu != "" && r.writer != "" && r.ticker != "" && r.stop != "" && r.done != "" && lifeOK && r.initFn != nil && r.loop != nil && len(chans) == 2
+	ok = r.mu != "" && r.writer != "" && r.ticker != "" && r.stop != "" && r.done != "" && lifeOK && r.initFn != nil && r.loop != nil && (len(chans) == 2 && !r.doneWG || len(chans) == 1 && r.doneWG)
 	return r, ok
 }
 
@@ -476,7 +568,7 @@ func c12Rules(c *Ctx, r1, r2, r3, r4, r5 string) {
 				for _, ls := range roles.life {
 					called := 0
 					seqs, trunc := ConcPaths(caller, ConcCfg{
-						InitFields: ls.initFields(caller.Params[0]), Conc: ls.conc(PN(caller.Params[0])),
+						InitFields: ls.initFields(caller.Params[0]), Conc: ls.conc(PN(caller.Params[0])), Fork: ls.fork(roles),
 						Inline: func(h *ssa.Function) bool { return h != initFn },
 						Event: func(in ssa.Instruction, st *ConcState) string {
 							if x, isC := in.(*ssa.Call); isC && x.Call.StaticCallee() == initFn {
@@ -507,6 +599,9 @@ func c12Rules(c *Ctx, r1, r2, r3, r4, r5 string) {
 		guardedBy(c, r1, bws, roles.guarded(), roles.mu, entry, func(a Access) string {
 			if (a.Fn == loop || onlyCalledFrom(a.Fn, loop, 0)) && !a.Write && (a.Field == top(roles.ticker) || a.Field == top(roles.stop) || a.Field == top(roles.done)) {
 				return "flushLoop reads ticker/stop/done, which are written once in initialize before the go statement that starts it (happens-before) and never again"
+			}
+			if roles.doneWG && a.Field == top(roles.done) {
+				return "a sync.WaitGroup synchronises its own Add/Done/Wait"
 			}
 			if a.Fn == stop && !a.Write && a.Field == top(roles.done) && len(Guards(a.Instr)) > 0 {
 				return "Stop reads done after its own critical section observed initialized == true; done is written once, in initialize, under the same mutex (happens-before through the lock)"
@@ -554,7 +649,7 @@ func c12Rules(c *Ctx, r1, r2, r3, r4, r5 string) {
 				slot = "stopped" // what is written after Stop is still buffered: a Sync must flush it all the same
 			}
 			seqs, trunc := ConcPaths(sync, ConcCfg{
-				InitFields: ls.initFields(sync.Params[0]), Conc: ls.conc(recvN),
+				InitFields: ls.initFields(sync.Params[0]), Conc: ls.conc(recvN), Fork: ls.fork(roles),
 				Event: func(in ssa.Instruction, st *ConcState) string {
 					switch x := in.(type) {
 					case *ssa.Call:
@@ -604,7 +699,7 @@ func c12Rules(c *Ctx, r1, r2, r3, r4, r5 string) {
 			if p, isP := arg.(*ssa.Parameter); isP && p.Parent() == loop {
 				d = Desc(roles.loopArg(p))
 			}
-			if strings.HasSuffix(d, "."+roles.done) {
+			if strings.HasSuffix(strings.TrimPrefix(d, "&"), "."+roles.done) {
 				return "close-done"
 			}
 			return "close(" + d + ")"
@@ -615,6 +710,12 @@ func c12Rules(c *Ctx, r1, r2, r3, r4, r5 string) {
 				if CallBuiltin(d) == "close" && len(d.Call.Args) == 1 {
 					return closeEv(d.Call.Args[0], st)
 				}
+				if IsCallTo(d, "(*sync.WaitGroup).Done") && roles.doneWG {
+					return closeEv(d.Call.Args[0], st)
+				}
+				if IsCallTo(d, "(*sync.WaitGroup).Add") {
+					return "wg.Add"
+				}
 				return ""
 			},
 			Event: func(in ssa.Instruction, st *ConcState) string {
@@ -622,6 +723,12 @@ func c12Rules(c *Ctx, r1, r2, r3, r4, r5 string) {
 				case *ssa.Call:
 					if IsCallTo(x, "(*go.uber.org/zap/zapcore.BufferedWriteSyncer).Sync") {
 						return "sync"
+					}
+					if IsCallTo(x, "(*sync.WaitGroup).Done") && roles.doneWG {
+						return closeEv(x.Call.Args[0], st)
+					}
+					if IsCallTo(x, "(*sync.WaitGroup).Add") {
+						return "wg.Add" // the loop must have been counted before it was started
 					}
 					if CallBuiltin(x) == "close" && len(x.Call.Args) == 1 {
 						return closeEv(x.Call.Args[0], st)
@@ -719,6 +826,30 @@ func c12Rules(c *Ctx, r1, r2, r3, r4, r5 string) {
 		})
 		if goes != 1 {
 			c.Bad(r5, "zapcore", "go-statements", token.NoPos, "expected exactly one go statement in zapcore, found %d", goes)
+		}
+		if roles.doneWG {
+			// the loop is counted - Add(1) - in the initialiser on every path to the go statement (a Stop that follows
+			// at once then waits for it), and nowhere else
+			var adds []string
+			okAdd := false
+			c.EachRootFunc(func(fn *ssa.Function) {
+				if fn.Pkg == nil || fn.Pkg.Pkg.Path() != CorePath {
+					return
+				}
+				for _, cl := range Calls(fn) {
+					if !IsCallTo(cl, "(*sync.WaitGroup).Add") || !strings.HasSuffix(strings.TrimPrefix(Desc(Args(cl)[0]), "&"), "."+roles.done) {
+						continue
+					}
+					k, isC := ConstInt(Args(cl)[1])
+					_, isCall := cl.(*ssa.Call)
+					if fn == initFn && isC && k == 1 && isCall && roles.loopGo != nil && Dominates(cl, roles.loopGo) {
+						okAdd = true
+					} else {
+						adds = append(adds, FuncKey(fn)+": Add("+Desc(Args(cl)[1])+")")
+					}
+				}
+			})
+			c.Check(okAdd && len(adds) == 0, r5, FuncKey(initFn), "loop-counted-before-start", initFn.Pos(), "the WaitGroup that Stop waits on is incremented by exactly 1 in the initialiser, before the go statement on every path, and nowhere else (other Add calls: %v)", adds)
 		}
 	}
 }
@@ -848,7 +979,7 @@ func c12Stop(c *Ctx, rule string, roles bwsRoles, stop *ssa.Function) {
 				init = 0
 			}
 			seqs, trunc := ConcPaths(stop, ConcCfg{
-				InitFields: ls.initFields(recv), Conc: ls.conc(rn),
+				InitFields: ls.initFields(recv), Conc: ls.conc(rn), Fork: ls.fork(roles),
 				Inline: func(h *ssa.Function) bool { return h.Name() != "Sync" },
 				Branch: func(cond ssa.Value, taken bool, st *ConcState) string {
 					// a nil test of the done channel: it is created together with the initialised flag (R12.1:
@@ -920,12 +1051,20 @@ func c12Stop(c *Ctx, rule string, roles bwsRoles, stop *ssa.Function) {
 							return "ticker.Stop"
 						case IsCallTo(x, "(*go.uber.org/zap/zapcore.BufferedWriteSyncer).Sync"):
 							return "sync"
+						case IsCallTo(x, "(*sync.WaitGroup).Wait"):
+							// waiting for the loop's Done: the WaitGroup form of receiving from the done channel
+							return "recv(" + fieldOf(st, x.Call.Args[0]) + ")"
+						case IsCallTo(x, "(*sync.WaitGroup).Add", "(*sync.WaitGroup).Done"):
+							return "wg." + CalleeFunc(x).Name() + "(" + fieldOf(st, x.Call.Args[0]) + ")"
 						}
 					case *ssa.UnOp:
 						if x.Op == token.ARROW {
 							return "recv(" + fieldOf(st, x.X) + ")"
 						}
 					case *ssa.Select:
+						if roles.chanLatched && !x.Blocking && len(x.States) == 1 && x.States[0].Dir == types.RecvOnly && strings.HasSuffix(st.Desc(x.States[0].Chan), "."+roles.testChan) {
+							return "" // the "stopped already?" test; its outcome is the state's
+						}
 						return "select"
 					case *ssa.Return:
 						if len(x.Results) == 1 {
@@ -951,8 +1090,12 @@ func c12Stop(c *Ctx, rule string, roles bwsRoles, stop *ssa.Function) {
 				sq = strings.ReplaceAll(sq, "done-is-nil ; ", "")
 				ok := false
 				if ls.name == "running" {
-					ok = sq == "lock ; latch ; ticker.Stop ; close("+roles.stop+") ; unlock ; recv("+roles.done+") ; sync ; ret(err)" ||
-						sq == "lock ; latch ; close("+roles.stop+") ; ticker.Stop ; unlock ; recv("+roles.done+") ; sync ; ret(err)"
+					latch := "latch ; "
+					if roles.chanLatched {
+						latch = "" // closing the stop channel is what records "stopped"
+					}
+					ok = sq == "lock ; "+latch+"ticker.Stop ; close("+roles.stop+") ; unlock ; recv("+roles.done+") ; sync ; ret(err)" ||
+						sq == "lock ; "+latch+"close("+roles.stop+") ; ticker.Stop ; unlock ; recv("+roles.done+") ; sync ; ret(err)"
 				} else {
 					ok = sq == "lock ; unlock ; ret(nil)"
 				}
@@ -1037,6 +1180,9 @@ func c12Write(c *Ctx, rule string, roles bwsRoles, write *ssa.Function) {
 		Fork: func(in ssa.Instruction, st *ConcState) []ConcAlt {
 			if cl, ok := in.(*ssa.Call); ok && IsCallTo(cl, "(*bufio.Writer).Flush") {
 				return []ConcAlt{{Ev: "flush-ok", Nils: map[ssa.Value]bool{cl: true}}, {Ev: "flush-failed", Nils: map[ssa.Value]bool{cl: false}}}
+			}
+			if f := roles.state("running").fork(roles); f != nil {
+				return f(in, st)
 			}
 			return nil
 		},
